@@ -594,9 +594,10 @@ def compile_assign(
 
 @pattern_macro(((3, 12), "deftype"), [maybe(type_params), SYM, FORM])
 def compile_deftype(compiler, expr, root, tp, name, value):
-    return asty.TypeAlias(expr,
+    value = compiler.compile(value)
+    return value + asty.TypeAlias(expr,
        name = asty.Name(name, id = mangle(name), ctx = ast.Store()),
-       value = compiler.compile(value).force_expr,
+       value = value.force_expr,
         **(digest_type_params(compiler, tp) or dict(type_params = [])))
 
 
@@ -1660,6 +1661,11 @@ def compile_function_def(compiler, expr, root, is_async, decorators, tp, name, p
 def compile_function_node(compiler, expr, node, decorators, tp, name, args, returns, body, scope):
     ret = Result()
 
+    if returns is not None:
+        returns = compiler.compile(returns)
+        ret += returns
+        returns = returns.force_expr
+
     if body.expr:
         # implicitly return final expression,
         # except for async generators
@@ -1672,7 +1678,7 @@ def compile_function_node(compiler, expr, node, decorators, tp, name, args, retu
         args=args,
         body=body.stmts or [asty.Pass(expr)],
         decorator_list=decorators,
-        returns=compiler.compile(returns).force_expr if returns is not None else None,
+        returns=returns,
         **digest_type_params(compiler, tp),
     )
 
